@@ -33,6 +33,9 @@ def atoms_of(validations):
     for txt, exc in validations:
         if exc == 'InternalError':
             continue
+        # (the text is that of the outcome on which the validation rejects, negations pushed
+        # inward - descriptors.norm_cond - so each atom is matched in its rejecting form only:
+        # a guard that rejects on the opposite outcome does not count as the comparison)
         for part in re.split(r'\|\|', txt):
             p = part.strip()
             if re.search(r'kind != (Dict|OrderedDict|DefaultDict)\b', p):
@@ -43,13 +46,13 @@ def atoms_of(validations):
                 out.add('family')
             if re.search(r'arity != arity|len\(\w+\) != arity|COUNTED != arity|arity != COUNTED', p):
                 out.add('arity')
-            if 'DictKeysEqual' in p:
+            if re.search(r'!DictKeysEqual', p):
                 out.add('keyset')
-            if re.search(r'not_equal\(', p):
+            if re.search(r'(?<!!)not_equal\(|!equal\(', p):
                 out.add('metadata')
-            if re.search(r'custom (==|!=) custom|(==|!=) custom\)|custom (!=|==) ', p):
+            if re.search(r'custom != custom|!= custom\)|custom != ', p):
                 out.add('registration')
-            if re.search(r'is\(.*custom\.type.*custom\.type', p):
+            if re.search(r'!is\(.*custom\.type.*custom\.type', p):
                 out.add('custom-type-identity')
             if 'bool(SPEC.node_data) != bool(SPEC.node_data)' in p:
                 out.add('metadata-presence')
